@@ -77,7 +77,14 @@ static int run_cases(FILE *in, case_fn handle, int per_case_alarm) {
         lines[n++] = strdup(line);
     }
     size_t next = 0;
+    int ntimeouts = 0;
     while (next < n) {
+        if (ntimeouts >= 10) {
+            /* a tree on which ten cases already hung is decided; do not spend per_case_alarm seconds on each remaining case */
+            for (; next < n; next++) printf("skipped:after-10-timeouts\n");
+            fflush(stdout);
+            break;
+        }
         int pfd[2]; if (pipe(pfd)) { perror("pipe"); return 2; }
         fflush(stdout);
         pid_t pid = fork();
@@ -112,7 +119,7 @@ static int run_cases(FILE *in, case_fn handle, int per_case_alarm) {
         if (dead >= n) { next = n; break; }
         if (WIFSIGNALED(st)) {
             int sg = WTERMSIG(st);
-            if (sg == SIGALRM) printf("timeout\n"); else printf("crash:%d\n", sg);
+            if (sg == SIGALRM) { printf("timeout\n"); ntimeouts++; } else printf("crash:%d\n", sg);
         } else if (WEXITSTATUS(st) == 77) printf("san:asan\n");
         else if (WEXITSTATUS(st) == 78) printf("san:ubsan\n");
         else printf("exit:%d\n", WEXITSTATUS(st));
